@@ -11,7 +11,10 @@ use std::collections::HashMap;
 #[derive(Serialize, Deserialize)]
 pub struct RewriteData {
   pub fixed: String,
-  // maybe we should have fixed range
+  /// the range `fixed` replaces: the fixer's range, which is wider than
+  /// the matched node when the fix has `expandStart`/`expandEnd`
+  #[serde(default)]
+  pub range: Option<Range>,
 }
 
 impl RewriteData {
@@ -24,9 +27,28 @@ impl RewriteData {
     rule: &RuleConfig<L>,
   ) -> Option<Self> {
     let fixer = rule.matcher.fixer.as_ref()?;
-    let edit = node_match.replace_by(fixer);
+    // the same edit as the CLI: the range is decided by the fixer
+    let edit = node_match.make_edit(&rule.matcher, fixer);
+    let src = node_match.root().get_text();
+    let range = Range {
+      start: convert_offset_to_position(src, edit.position),
+      end: convert_offset_to_position(src, edit.position + edit.deleted_length),
+    };
     let rewrite = String::from_utf8(edit.inserted_text).ok()?;
-    Some(Self { fixed: rewrite })
+    Some(Self {
+      fixed: rewrite,
+      range: Some(range),
+    })
+  }
+}
+
+/// zero-based line and character column of a byte offset, as in `convert_node_to_range`
+fn convert_offset_to_position(src: &str, offset: usize) -> Position {
+  let before = &src[..offset];
+  let line_start = before.rfind('\n').map_or(0, |i| i + 1);
+  Position {
+    line: before.matches('\n').count() as u32,
+    character: before[line_start..].chars().count() as u32,
   }
 }
 
@@ -36,7 +58,8 @@ pub fn diagnostic_to_code_action(
 ) -> Option<CodeAction> {
   let rewrite_data = RewriteData::from_value(diagnostic.data?)?;
   let mut changes = HashMap::new();
-  let text_edit = TextEdit::new(diagnostic.range, rewrite_data.fixed);
+  let range = rewrite_data.range.unwrap_or(diagnostic.range);
+  let text_edit = TextEdit::new(range, rewrite_data.fixed);
   changes.insert(text_doc.uri.clone(), vec![text_edit]);
 
   let edit = WorkspaceEdit::new(changes);
